@@ -1,11 +1,11 @@
-\* The code as it is, with a failing check function (fk = "Check"): the id is assumed free and returned although it exists in
-\* the caller's repository (NoTaken violated, ghost chkAssumed).  Deliberate in the code ("if the check fails, assume it does
-\* not exist"); no caller in tunnox-core; such behaviours are not driven.
+\* Deviation ReturnedIdReleased (seeded change C15-r6m2): the retry loop keeps its rejected candidates in a list that is released
+\* on the way out - and the id RETURNED on the check-error path ("assume it does not exist, use it") is still in that list: a
+\* live, never released id has no marker; the next generator that draws it is handed the same id (Unique / HeldMarked violated).
 \* Not run by the check (it must fail); kept to show the counterexample:
-\*   tlc -config IdGen_show_checkerr.cfg IdGen.tla
+\*   tlc -config IdGen_show_returnedreleased.cfg IdGen.tla
 CONSTANTS
   Mode = "uniq"
-  Procs = {"p1"}
+  Procs = {"p1", "p2"}
   HasNX = "yes"
   NCands = 2
   MaxAttempts = 2
@@ -26,11 +26,11 @@ CONSTANTS
   StopChan = "once"
   MaxU = 2
   ExhaustionReturnsLast = FALSE
-  ReturnedIdReleased = FALSE
+  ReturnedIdReleased = TRUE
   WithLapse = FALSE
   Emit = FALSE
 INIT Init
 NEXT Next
 VIEW view
-INVARIANTS TypeOK NoTaken
+INVARIANTS TypeOK Unique
 CHECK_DEADLOCK FALSE
